@@ -178,6 +178,32 @@ type Dialer struct {
 	Deadline time.Time
 }
 
+// Dial mirrors (*net.Dialer).Dial: Timeout is relative to the call, Deadline is an absolute point in time, the
+// earlier of the two bounds the connect.
+func (d *Dialer) Dial(network, address string) (net.Conn, error) {
+	var deadline time.Time
+	if d.Timeout > 0 {
+		deadline = time.Now().Add(d.Timeout)
+	}
+	if !d.Deadline.IsZero() && (deadline.IsZero() || d.Deadline.Before(deadline)) {
+		deadline = d.Deadline
+	}
+	if deadline.IsZero() {
+		return Dial(network, address)
+	}
+	left := time.Until(deadline)
+	if left <= 0 {
+		return nil, &net.OpError{Op: "dial", Net: network, Err: errDialTimeout{}}
+	}
+	return DialTimeout(network, address, left)
+}
+
+type errDialTimeout struct{}
+
+func (errDialTimeout) Error() string   { return "i/o timeout" }
+func (errDialTimeout) Timeout() bool   { return true }
+func (errDialTimeout) Temporary() bool { return true }
+
 // TLSDialWithDialer mirrors crypto/tls.DialWithDialer: the dialer's timeout
 // covers the connect and the TLS handshake together.
 func TLSDialWithDialer(dialer *Dialer, network, addr string, config *tls.Config) (*tls.Conn, error) {
